@@ -237,12 +237,48 @@ func byteLayout(ev *tf.Eval, t *tf.Term, bufWrites map[string][]*tf.Term, starre
 				for _, sp := range p.Args {
 					if sp.K == tf.KSplice {
 						items := byteLayout(ev, tf.Seq(sp), bufWrites, true)
+						type mappedItem struct {
+							k   int
+							exp []layoutItem
+						}
+						var mapped []mappedItem
 						// the loop must visit every element of the slice it packs, no fewer and no more: a bound taken from
 						// another slice (len(p.IdComms) for p.DeletionIndices) drops or over-reads elements
 						for k := range items {
 							src := ev.Resolve(items[k].Source)
 							if src.K == tf.KIdx && src.Args[1].K == tf.KIndVar && src.Args[1].Loop == p.Loop {
 								n, okN := loopRangeZeroTo(p.Loop)
+								// one loop over a list of words built in this function ([]*big.Int{&p.PreRoot, &p.PostRoot}, or that list
+								// extended by every commitment): the loop body is applied to each element of the list in order
+								if list := src.Args[0]; okN && list.K == tf.KSeq && items[k].Kind != "?" {
+									nElems, onlyElems := int64(0), true
+									for _, lp := range list.Args {
+										if lp.K == tf.KElem {
+											nElems++
+										} else {
+											onlyElems = false
+										}
+									}
+									cnt, isConst := tf.IntConst(stripConv(n))
+									if tf.Eq(stripConv(n), tf.Len(list)) || (onlyElems && isConst && cnt == nElems) {
+										var expanded []layoutItem
+										okExp := true
+										for _, lp := range list.Args {
+											switch {
+											case lp.K == tf.KElem:
+												expanded = append(expanded, layoutItem{Kind: items[k].Kind, Source: derefArg(ev, lp.Args[0]), Starred: false})
+											case lp.K == tf.KStar && len(lp.Args) == 1 && lp.Args[0].K == tf.KElem:
+												expanded = append(expanded, layoutItem{Kind: items[k].Kind, Source: derefArg(ev, lp.Args[0].Args[0]), Starred: true})
+											default:
+												okExp = false
+											}
+										}
+										if okExp {
+											mapped = append(mapped, mappedItem{k, expanded})
+											continue
+										}
+									}
+								}
 								if !okN || !tf.Eq(stripConv(n), tf.Len(src.Args[0])) {
 									bound := "an unrecognised range"
 									if okN {
@@ -253,7 +289,18 @@ func byteLayout(ev *tf.Eval, t *tf.Term, bufWrites map[string][]*tf.Term, starre
 								}
 							}
 						}
-						out = append(out, items...)
+						for k := range items {
+							replaced := false
+							for _, m := range mapped {
+								if m.k == k {
+									out = append(out, m.exp...)
+									replaced = true
+								}
+							}
+							if !replaced {
+								out = append(out, items[k])
+							}
+						}
 					} else {
 						out = append(out, layoutItem{Kind: "?", Source: sp, Starred: true, Why: "single bytes appended in a loop"})
 					}
